@@ -198,3 +198,20 @@ def r20_7(ctx):
             cs = [e for e in p.events if e.kind == "call"]
             ok = (not has_loop and not cs) or (has_loop and [e.what for e in cs] == ["self.loop.call_soon_threadsafe"] and isinstance(cs[0].args[0], Closure))
             ctx.require(ok and p.terminal == "return", f"force_stop:loop={has_loop}", f"force_stop with{'' if has_loop else 'out'} a loop: {[e.what for e in cs]}", func=f)
+
+
+@rule("R20.8", ["C20"], "T-FUN", floor=1)
+def r20_8(ctx):
+    """EventLoopThread.run_coroutine_threadsafe schedules the coroutine on the *thread's* loop and wraps the
+    concurrent future for the *caller's* loop (the one current at the call), returning that wrapped future."""
+    repo = ctx.repo
+    f = repo.func(f"{TH}:EventLoopThread.run_coroutine_threadsafe")
+    ctx.fn(f)
+    px = PX(repo, models=[("asyncio.get_event_loop", lambda px_, t, a, k, fr: Sym("caller_loop")), ("asyncio.get_running_loop", lambda px_, t, a, k, fr: Sym("caller_loop"))],
+            inline=same_class())
+    for p in px.explore(f, lambda: (self_obj(repo.cls(TH, "EventLoopThread"), {"loop": Sym("thread_loop")}), {"coroutine": Sym("coro")})):
+        rct = [e for e in p.events if e.kind == "call" and e.what.endswith("run_coroutine_threadsafe")]
+        wf = [e for e in p.events if e.kind == "call" and e.what.endswith("wrap_future")]
+        ok = (p.terminal == "return" and len(rct) == 1 and rct[0].args == (Sym("coro"), Sym("thread_loop")) and len(wf) == 1 and wf[0].args[:1] == (rct[0].extra,)
+              and wf[0].kwargs.get("loop", wf[0].args[1] if len(wf[0].args) > 1 else None) == Sym("caller_loop") and p.value == wf[0].extra)
+        ctx.require(ok, "run_coroutine_threadsafe", f"dispatch {[e.args for e in rct]!r}, wrap {[(e.args, e.kwargs) for e in wf]!r}, returns {p.value!r}", func=f, trace=p.trace())
